@@ -30,6 +30,7 @@ import (
 	"testing"
 
 	"verif.local/engine/evidence"
+	"verif.local/engine/vpriv"
 	"verif.local/engine/xstate"
 )
 
@@ -429,7 +430,9 @@ func (y *c15hSys) Key() string {
 		parts = append(parts, fmt.Sprintf("a%s=%d/%d", id, a[0]-y.cleared[id][0], a[1]-y.cleared[id][1]))
 	}
 	sort.Strings(parts)
-	return strings.Join(parts, ",")
+	// whatever else the server remembers directly in its own fields (none on the pinned tree beyond
+	// the constant Secret): keeps states apart that a changed tree tells apart in a new field
+	return strings.Join(parts, ",") + vpriv.Scalars(y.s)
 }
 
 func c15hOps() []c15hOp {
